@@ -159,14 +159,19 @@ def angle_oracle(case, stats):
             if not same(g3, want):
                 raise Violation("angle-params-history", "%s-%s-%s evaluated again without rules after a call with rules: %r, "
                                 "formulas give %r" % (a, b, c, g3, want))
-            # bond orders passed explicitly but left open (None) for one or both bonds, together with user rules: the open
-            # ones are guessed with the rules, in every accepted argument form
+            # bond orders passed explicitly (the documented form: a list of two) but left open (None) for one or both bonds,
+            # together with user rules: the open ones are guessed with the rules
             ruled = {a, b, c} & {"N_1", "N_2", "C_R", "O_2", "C_2", "H_", "C_3", "O_3", "Zr3+4"}
             if len(ruled) >= 2 or (n % 5) == 0:
                 for rules in RULESETS[1:]:
-                    for bos in ([None, None], (None, None), [None, 2], (1, None)):
-                        g5 = U.angle_params(a, b, c, bond_orders=bos, bond_order_rules=rules)
-                        w5 = ref_uff.angle(T, a, b, c, orders=list(bos), rules=rules)
+                    for bos in ([None, None], [None, 2], [1, None]):
+                        want_bos = list(bos)
+                        try:
+                            g5 = U.angle_params(a, b, c, bond_orders=bos, bond_order_rules=rules)
+                        except Exception as e:
+                            raise Violation("angle-params-raised", "%s-%s-%s bond orders %r with rules %r: %s: %r" %
+                                            (a, b, c, want_bos, rules, type(e).__name__, e))
+                        w5 = ref_uff.angle(T, a, b, c, orders=want_bos, rules=rules)
                         if not same(g5, w5):
                             raise Violation("angle-params-orders-and-rules", "%s-%s-%s bond orders %r with rules %r: %r, formulas "
                                             "give %r" % (a, b, c, bos, rules, g5, w5))
